@@ -630,6 +630,16 @@ pub struct Viol {
     detail: String,
 }
 
+static PROGRESS: std::sync::atomic::AtomicU64 = std::sync::atomic::AtomicU64::new(0);
+static CURRENT: Mutex<String> = Mutex::new(String::new());
+
+fn progress(what: impl FnOnce() -> String) {
+    PROGRESS.fetch_add(1, std::sync::atomic::Ordering::Relaxed);
+    if let Ok(mut c) = CURRENT.try_lock() {
+        *c = what();
+    }
+}
+
 #[derive(Default)]
 pub struct St {
     types: u64,
@@ -701,6 +711,7 @@ fn bulk_checks<T: Gen>(st: &mut St, xs: &[T], hs: &[usize], name: &str) {
     macro_rules! eq {
         ($what:expr, $got:expr, $want:expr) => {{
             st.evaluations += 1;
+            progress(|| format!("{} on a list of {} instances of {}", $what, xs.len(), name));
             match catch_unwind(AssertUnwindSafe(|| $got)) {
                 Ok(g) => {
                     let w = $want;
@@ -754,6 +765,7 @@ pub fn check_type<T: Gen>(st: &mut St) {
     for i in 0..n {
         st.instances += 1;
         st.evaluations += 1;
+        progress(|| format!("heap_size() of instance {} of {}", T::shape(i), name));
         let before = live();
         let v = T::make(i);
         let held = live() - before;
@@ -1035,6 +1047,7 @@ fn run_scripts<C: Scripted + 'static>(st: &mut St, depth: usize) {
     for sc in &scripts {
         st.scripts += 1;
         st.evaluations += 1;
+        progress(|| format!("heap_size() of a {} built by {:?}", name, sc));
         let before = live();
         let v: C = build_script(sc);
         let held = live() - before;
@@ -1273,22 +1286,54 @@ fn cmd_run(args: &[String]) -> i32 {
     let seed: i64 = opt.get("seed").and_then(|s| s.parse().ok()).unwrap_or(0);
     let thorough = tier == "thorough";
     let known = load_known(opt.get("known"));
-    let mut st = St::default();
-    let mut catalogue_types = CATALOGUE_QUICK_TYPES;
-    catalogue_quick(&mut st);
-    #[cfg(feature = "deep")]
-    if thorough {
-        catalogue_deep(&mut st);
-        catalogue_types += CATALOGUE_DEEP_TYPES;
-    }
-    let deep_built = cfg!(feature = "deep");
     let script_depth = if thorough { 3 } else { 2 };
-    if prop == "C09" {
-        run_all_scripts(&mut st, script_depth);
-    }
-    if prop == "C08" {
-        run_ladder(&mut st);
-    }
+    let deep_built = cfg!(feature = "deep");
+    // the enumeration runs on a worker thread; an estimate that does not
+    // terminate (e.g. a helper that takes a lock twice) is a verdict, not a hang
+    let prop2 = prop.clone();
+    let worker = std::thread::Builder::new()
+        .stack_size(64 << 20)
+        .spawn(move || {
+            let mut st = St::default();
+            let mut catalogue_types = CATALOGUE_QUICK_TYPES;
+            catalogue_quick(&mut st);
+            #[cfg(feature = "deep")]
+            if thorough {
+                catalogue_deep(&mut st);
+                catalogue_types += CATALOGUE_DEEP_TYPES;
+            }
+            if prop2 == "C09" {
+                run_all_scripts(&mut st, script_depth);
+            }
+            if prop2 == "C08" {
+                run_ladder(&mut st);
+            }
+            (st, catalogue_types)
+        })
+        .expect("worker");
+    let mut last = 0u64;
+    let mut since = std::time::Instant::now();
+    let (mut st, catalogue_types) = loop {
+        if worker.is_finished() {
+            break worker.join().expect("worker panicked");
+        }
+        std::thread::sleep(std::time::Duration::from_millis(200));
+        let p = PROGRESS.load(std::sync::atomic::Ordering::Relaxed);
+        if p != last {
+            last = p;
+            since = std::time::Instant::now();
+        } else if since.elapsed().as_secs_f64() > 20.0 {
+            let what = CURRENT.lock().map(|c| c.clone()).unwrap_or_default();
+            let replay_dir = opt.get("replay-dir").cloned().unwrap_or_else(|| "/verif/replays".into());
+            let _ = std::fs::create_dir_all(&replay_dir);
+            let path = format!("{}/{}-nonterminating.json", replay_dir, prop);
+            let _ = std::fs::write(&path, serde_json::to_string_pretty(&json!({"property": prop, "rule": "C08.total", "detail": format!("does not terminate: {what}"), "engine": "sizemc", "tier": tier})).unwrap());
+            println!("VIOLATION property={} replay={}", prop, path);
+            println!("  rule C08.total: size estimation made no progress for 20 s (does not terminate): {what}");
+            println!("{}: tier={} violations=1 (stopped at the non-terminating estimate)", prop, tier);
+            std::process::exit(1);
+        }
+    };
     let wall = t0.elapsed().as_secs_f64();
     // report
     let mut n_viol = 0;
